@@ -171,6 +171,8 @@ fn sharded<K: Kmer + Send + Sync, P: Kmer, V: Vmer + Clone>(reads: &[Read], stra
         graphs.reverse();
     }
     let comb = if graphs.is_empty() { BaseGraph::new(stranded) } else { BaseGraph::combine(graphs.into_iter()) };
+    // remembered for the caller: the combined graph must keep the strandedness of its parts (key [255] is no k-mer)
+    shard_of.insert(vec![255u8], comb.stranded as u32);
     let dg = comb.finish();
     compress_graph(stranded, &sum_spec(), dg, None)
 }
@@ -217,6 +219,11 @@ pub fn run<K: Kmer + Send + Sync>(c: &GCase) -> Outcome {
     let mut shard_of = BTreeMap::new();
     let g = sharded_any::<K>(&reads, c.stranded, c.thr, &cfg, &mut nshards, &mut shard_of);
     let gv = view(&g);
+    o.transitions += 1;
+    let comb_flag = shard_of.remove(&vec![255u8]).map(|x| x == 1);
+    if gv.stranded != c.stranded || comb_flag != Some(c.stranded) {
+        o.fail("strandedness-lost", format!("the combined graph reports stranded = {:?} and the re-compressed graph {}, the shards were built with stranded = {}", comb_flag, gv.stranded, c.stranded));
+    }
     if nshards >= 2 {
         o.flags |= flag::SPECIFIC;
     }
